@@ -23,8 +23,6 @@ Inductive case := Case (w0 : world) (steps : list stepobs).
 
 (* ------------------------------------------------------------------ decidable equality on observations *)
 
-Definition opt_eqb {A} (e : A -> A -> bool) (a b : option A) : bool :=
-  match a, b with Some x, Some y => e x y | None, None => true | _, _ => false end.
 Fixpoint list_eqb {A} (e : A -> A -> bool) (a b : list A) : bool :=
   match a, b with
   | [], [] => true
@@ -34,8 +32,6 @@ Fixpoint list_eqb {A} (e : A -> A -> bool) (a b : list A) : bool :=
 
 Definition inst_eqb (a b : inst) : bool :=
   match a, b with INone, INone | IRunning, IRunning | IShutting, IShutting | IGone, IGone => true | _, _ => false end.
-Definition annot_eqb (a b : annot) : bool :=
-  match a, b with ANone, ANone | ABad, ABad => true | AAt s, AAt t => s =? t | _, _ => false end.
 Definition pans_eqb (a b : pans) : bool :=
   match a, b with PNil, PNil | PNotFound, PNotFound | PErr, PErr => true | _, _ => false end.
 Definition res_eqb (a b : res) : bool :=
@@ -50,20 +46,10 @@ Definition pod_eqb (a b : pod) : bool :=
   && opt_eqb Z.eqb (p_del a) (p_del b) && list_eqb Z.eqb (p_pvs a) (p_pvs b).
 Definition va_eqb (a b : va) : bool :=
   (v_id a =? v_id b) && (v_node a =? v_node b) && opt_eqb Z.eqb (v_pv a) (v_pv b).
-Definition node_eqb (a b : node) : bool :=
-  (n_id a =? n_id b) && Bool.eqb (n_managed a) (n_managed b) && Bool.eqb (n_fin a) (n_fin b)
-  && Bool.eqb (n_del a) (n_del b) && Bool.eqb (n_taint a) (n_taint b) && Bool.eqb (n_lbl a) (n_lbl b)
-  && Bool.eqb (n_ready a) (n_ready b).
-Definition claim_eqb (a b : claim) : bool :=
-  Bool.eqb (c_managed a) (c_managed b) && Bool.eqb (c_fin a) (c_fin b) && opt_eqb Z.eqb (c_del a) (c_del b)
-  && Bool.eqb (c_pid a) (c_pid b) && Bool.eqb (c_registered a) (c_registered b)
-  && opt_eqb Z.eqb (c_tgp a) (c_tgp b) && annot_eqb (c_annot a) (c_annot b)
-  && dcond_eqb (c_drained a) (c_drained b) && vcond_eqb (c_vol a) (c_vol b) && Bool.eqb (c_term a) (c_term b).
-
 (* the launch cache is in-memory state of the controller and is not observed *)
 Definition world_eqb (a b : world) : bool :=
   (w_now a =? w_now b) && list_eqb node_eqb (w_nodes a) (w_nodes b)
-  && opt_eqb claim_eqb (w_claim a) (w_claim b) && list_eqb pod_eqb (w_pods a) (w_pods b)
+  && opt_eqb claim_eqb (w_claim a) (w_claim b) && opt_eqb claim_eqb (w_twin a) (w_twin b) && list_eqb pod_eqb (w_pods a) (w_pods b)
   && list_eqb va_eqb (w_vas a) (w_vas b) && inst_eqb (w_inst a) (w_inst b).
 
 Definition eff_eqb (a b : eff) : bool :=
@@ -80,6 +66,8 @@ Definition eff_eqb (a b : eff) : bool :=
   | EAddFin x, EAddFin y => Bool.eqb x y
   | EProvCreate x, EProvCreate y => Bool.eqb x y
   | EPersist x, EPersist y => Bool.eqb x y
+  | EDelTwin x, EDelTwin y => Bool.eqb x y
+  | EStatusTwin x d v t, EStatusTwin y d' v' t' => Bool.eqb x y && dcond_eqb d d' && vcond_eqb v v' && Bool.eqb t t'
   | _, _ => false
   end.
 
@@ -87,9 +75,15 @@ Definition eff_eqb (a b : eff) : bool :=
 
 (* the property's boolean spec on what the implementation did: [wo] is the world before the op, each instant
    is the world inside the successful finalizer-removing patch *)
-Definition instant_ok (wo : world) (ti : target * world) : bool :=
+Definition instant_ok (o : op) (wo : world) (ti : target * world) : bool :=
   match ti with
-  | (TNode i, wi) => if node_has_claim_b wo then node_fin_ok_b wo wi i else true
+  | (TNode i, wi) =>
+      if node_has_claim_b wo then
+        match o with
+        | RNodeStale old _ => node_fin_ok_seen_b wo wi i (n_ready old)   (* lagging cache: readiness as read *)
+        | _ => node_fin_ok_b wo wi i
+        end
+      else true
   | (TClaim, wi) => claim_fin_ok_b wi
   end.
 Definition is_tnode (ti : target * world) : bool := match fst ti with TNode _ => true | TClaim => false end.
@@ -123,8 +117,8 @@ Fixpoint check_steps (wf0 : bool) (wm wo : world) (steps : list stepobs) : list 
       ++ (if res_eqb rm (s_res s) then [] else ["corr:result"])
       ++ (if world_eqb wm' wo' then [] else ["corr:state"])
       ++ (if list_eqb ti_eqb (model_instants wm em) (s_instants s) then [] else ["corr:instant"])
-      ++ (if forallb (instant_ok wo) (filter is_tnode (s_instants s)) then [] else ["oracle:node-finalizer"])
-      ++ (if forallb (instant_ok wo) (filter (fun ti => negb (is_tnode ti)) (s_instants s)) then []
+      ++ (if forallb (instant_ok (s_op s) wo) (filter is_tnode (s_instants s)) then [] else ["oracle:node-finalizer"])
+      ++ (if forallb (instant_ok (s_op s) wo) (filter (fun ti => negb (is_tnode ti)) (s_instants s)) then []
           else ["oracle:claim-finalizer"])
       ++ (if wf0 && orphaned wo wo' then ["oracle:orphan"] else [])
       ++ check_steps wf0 wm' wo' rest
